@@ -4,7 +4,7 @@
    (the concat_nest lemmas of LawWrappers) and map = stream attribution (FinalTree). *)
 From RS Require Import Base.Prelude Base.Text Codec.Vlq Codec.CodecSpec Stream.Types Stream.Leaves
   Stream.Concat Stream.Replace Stream.Tree Sem.Attr Checkers.ChkCodec Checkers.ChkTree
-  Proofs.AttrCodec Proofs.LawConcatAttr Proofs.LawWrappers Proofs.RStreamTree Proofs.FinalDense Proofs.FinalTree.
+  Proofs.AttrCodec Proofs.LawConcatAttr Proofs.LawWrappers Proofs.RStreamTree Proofs.FinalDense Proofs.FinalTree Proofs.LinesTree.
 Require Import List Bool.
 Import ListNotations.
 
@@ -99,3 +99,37 @@ Qed.
 
 Print Assumptions concat_nest_any.
 Print Assumptions boxed_nesting_map.
+
+(* the same for columns = false *)
+Definition small_final_lines (st : store) (s : src) : Prop :=
+  forallb mapping_small (chunk_mappings (fst (fst (stream st s (mkOpts false true))))) = true.
+
+Theorem boxed_nesting_map_lines (st : store) (a b c : src) :
+  let F := SConcat [a; b; c] in
+  let R := SConcat [a; SConcat [b; c]] in
+  let L := SConcat [SConcat [a; b]; c] in
+  good F -> good R -> good L -> small_final_lines st F -> small_final_lines st R -> small_final_lines st L ->
+  attr_of_map (fst (get_map st R false)) (source R) false = attr_of_map (fst (get_map st F false)) (source F) false /\
+  attr_of_map (fst (get_map st L false)) (source L) false = attr_of_map (fst (get_map st F false)) (source F) false /\
+  is_none (fst (get_map st R false)) = is_none (fst (get_map st F false)) /\
+  is_none (fst (get_map st L false)) = is_none (fst (get_map st F false)).
+Proof.
+  intros F R L [F1 [F2 F3]] [R1 [R2 R3]] [L1 [L2 L3]] SF SR SL.
+  destruct (C03_tree_lines st F F1 F2 F3 SF) as [AF NF].
+  destruct (C03_tree_lines st R R1 R2 R3 SR) as [AR NR].
+  destruct (C03_tree_lines st L L1 L2 L3 SL) as [AL NL].
+  destruct (concat_nest_any st a b c false false F1 F2) as [N1 N2]. unfold evs_of in N1, N2.
+  rewrite AF, AR, AL. split; [exact N1|]. split; [exact N2|].
+  rewrite NF, NR, NL.
+  pose proof (rshape_concat_inv _ F1) as Hs'. pose proof (treeA_concat_inv _ F2) as Ha'.
+  assert (Hd : Forall (fun k => dense (fst k) 0 0 = true) (fst (kid_streams st [a; b; c] (mkOpts false false)))).
+  { apply kid_streams_dense.
+    inversion Hs' as [|? ? Sa Hs1]; subst. inversion Hs1 as [|? ? Sb Hs2]; subst. inversion Hs2 as [|? ? Sc _]; subst.
+    inversion Ha' as [|? ? Aa Ha1]; subst. inversion Ha1 as [|? ? Ab Ha2]; subst. inversion Ha2 as [|? ? Ac _]; subst.
+    repeat constructor; apply dense_all_any; assumption. }
+  destruct (concat_nest_right_ta st a b c false Hd) as [T1 _].
+  destruct (concat_nest_left_ta st a b c false Hd) as [T2 _].
+  unfold evs_of in T1, T2. unfold F, R, L.
+  rewrite !mapped_exists_tas, T1, T2. split; reflexivity.
+Qed.
+Print Assumptions boxed_nesting_map_lines.
